@@ -352,7 +352,8 @@ impl Prop for NodePart {
          centres (nodes join, a node leaves, a whole data centre leaves, everybody leaves, a node is replaced by another \
          one or moves to another data centre in ONE update so the member count stays the same) published via hook \
          H-members, or DatacakeNode::select_nodes with a generated level (selector actor, cursors and result cache \
-         included); oracle: the same validity predicate as part `selector`, judged against the snapshot current at \
+         included); oracle: the same validity predicate as part `selector` (the local node = the advertised address; half of the cases \
+         listen on a different address), judged against the snapshot current at \
          the time of the call; non-trivial = a selection after a snapshot that removed a node or a data centre"
     }
 }
@@ -360,7 +361,10 @@ impl Prop for NodePart {
 async fn run_node(case: &NodeCase) -> Outcome {
     use datacake_node::{ClusterMember, ConnectionConfig, DatacakeNodeBuilder};
     let me = node_addr(1);
-    let cfg = ConnectionConfig::new(me, me, Vec::<String>::new());
+    // half of the cases listen on another address than the one the node advertises (0.0.0.0:port plus a public
+    // address is the documented way to deploy): "the local node" is the advertised address, as in the snapshots
+    let listen: SocketAddr = if case.seed & 1 == 1 { ([10, 2, 9, 1], 7000).into() } else { me };
+    let cfg = ConnectionConfig::new(listen, me, Vec::<String>::new());
     let node = DatacakeNodeBuilder::<DCAwareSelector>::new(1, cfg).with_data_center("dc-0").connect().await.expect("connect");
     tokio::time::sleep(std::time::Duration::from_millis(10)).await;
     let mut layout: Layout = Layout::new();
